@@ -317,9 +317,9 @@ func vC14FrRunInBubble(t *testing.T, c *vh.Case, sc vC14FrScn, target int) *vC14
 	for i := 0; i < sc.NOps; i++ {
 		op := &vC14FrOp{Kind: kinds[r.Intn(len(kinds))], Tmo: []time.Duration{0, 15 * time.Second, 40 * time.Second, 90 * time.Second}[r.Intn(4)]}
 		op.Offset = time.Duration(r.Intn(5000)) * time.Millisecond // the first crawl takes N x latency
-		if op.Kind == "trigger" && op.Tmo == 0 {
-			op.Tmo = 15 * time.Second // TriggerRefresh waits for the crawler loop or its context
-		}
+		// TriggerRefresh keeps its drawn timeout, including none (1 in 4): it waits for the crawler loop (which
+		// ticks a boundary event per crawled peer, so the idle bound below applies) or for the instance's own
+		// context; a call without deadline that is in flight at, or started after, Close must still return.
 		tgt := e.ids[r.Intn(len(e.ids))]
 		salt, cnt := r.Int63(), r.Intn(3)
 		ops = append(ops, op)
